@@ -453,16 +453,32 @@ class Interp:
 
     def drop(self, c):
         v = c.v if isinstance(c, Cell) else c
-        if isinstance(v, Ptr) and v.kind in ("arc", "rc") and isinstance(v.rc.v, int):
-            v.rc.v -= 1
-        if isinstance(v, Opaque) and v.tag == "MutexGuard":
+        self._drop_val(v, set())
+        hook = getattr(self, "drop_hook", None)
+        if hook: hook(v)
+
+    def _drop_val(self, v, seen):
+        """release what the value owns: Arc/Rc strong counts (recursively through aggregates), mutex guards"""
+        if id(v) in seen or v is None: return
+        seen.add(id(v))
+        if isinstance(v, Ptr):
+            if v.kind in ("arc", "rc") and isinstance(v.rc.v, int):
+                v.rc.v -= 1
+                if v.rc.v == 0: self._drop_val(v.cell.v, seen)
+            elif v.kind == "box":
+                self._drop_val(v.cell.v, seen)
+        elif isinstance(v, (Agg, EnumV, Closure)):
+            for cc in v.cells: self._drop_val(cc.v, seen)
+        elif isinstance(v, Seq):
+            for cc in v.cells: self._drop_val(cc.v, seen)
+        elif isinstance(v, MapV):
+            for k, cc in v.items: self._drop_val(cc.v, seen)
+        elif isinstance(v, Opaque) and v.tag == "MutexGuard":
             m = getattr(self, "guards", {}).get(id(v))
             if m is not None and m.cells[1].v is True:
                 m.cells[1].v = False
                 log = getattr(self, "event_log", None)
                 if log is not None: log.append(("unlock", id(m)))
-        hook = getattr(self, "drop_hook", None)
-        if hook: hook(v)
 
     def switch(self, v, arms, fn):
         if isinstance(v, bool): v = Int("u8", int(v))
